@@ -191,7 +191,8 @@ static void FinishCmd(int idx) {
     return;
   }
   auto f = g_cur.cfg->faults.find(s.id());
-  if (f != g_cur.cfg->faults.end()) {
+  bool depfile_dir = f != g_cur.cfg->faults.end() && f->second.depfile_dir && !s.depfile.empty();
+  if (f != g_cur.cfg->faults.end() && !depfile_dir) {
     const Fault& ft = f->second;
     if (ft.touch) {
       for (const string& o : s.outs)
@@ -233,6 +234,17 @@ static void FinishCmd(int idx) {
     rc.wrote = true;
   }
   if (!s.depfile.empty()) {
+    const vfs::File* df = vfs::disk->Get(s.depfile);
+    if (depfile_dir || (df && df->dir)) {
+      // a directory where the dependency file should be: made by this (faulty) run, or left by an earlier one, in which case
+      // the tool cannot write its dependencies and says so
+      if (depfile_dir && !(df && df->dir)) { vfs::disk->Remove(s.depfile); vfs::disk->MkdirP(s.depfile); }
+      rc.status = 1;
+      if (depfile_dir) rc.told = 0; else rc.output = "sim: " + s.depfile + ": Is a directory\n";
+      rc.output += s.print;
+      Record(Event::kFinish, idx, rc.status);
+      return;
+    }
     vfs::disk->Write(s.depfile, DepfileText(s));
   }
   if (s.msvc && !s.notes_last)
@@ -304,7 +316,7 @@ static void Complete(SubprocessSet* set, size_t pos) {
     (void)!write(1, rc.output.data(), rc.output.size());
   }
   // The real Finish() maps signal deaths by SIGINT/SIGTERM/SIGHUP to ExitInterrupted.
-  s->exit_status_ = (ExitStatus)rc.status;
+  s->exit_status_ = (ExitStatus)(rc.told >= 0 ? rc.told : rc.status);
   if (!s->use_console_) s->buf_ = rc.output;
   s->fd_ = -2;  // Done()
   set->finished_.push(s);
